@@ -6,7 +6,7 @@
 (*  arrive d when / created / read got   one delivery schedule                *)
 EXTENDS MuxOps, TraceKit
 
-VARIABLES l, viol, cnt, early, late
+VARIABLES pos, viol, cnt, early, late
 
 Answers(mask) == (IF mask % 2 = 1 THEN {"dtls"} ELSE {})
                  \cup (IF (mask \div 2) % 2 = 1 THEN {"srtp"} ELSE {})
@@ -34,20 +34,20 @@ Preds(e) == {
         early \subseteq SetOf(e.got))
   }
 
-Init == l = 1 /\ viol = {} /\ cnt = EmptyCount /\ early = {} /\ late = {}
+Init == pos = 1 /\ viol = {} /\ cnt = EmptyCount /\ early = {} /\ late = {}
 
 Step ==
-  /\ l <= Len(Trace)
-  /\ LET e == Trace[l] IN
+  /\ pos <= Len(Trace)
+  /\ LET e == Trace[pos] IN
        IF e.ev = "reset" THEN early' = {} /\ late' = {} /\ UNCHANGED <<viol, cnt>>
        ELSE LET ps == Preds(e) IN
-            /\ viol' = Merge(viol, Failures(ps, e, l))
+            /\ viol' = Merge(viol, Failures(ps, e, pos))
             /\ cnt'  = Count(cnt, ps)
             /\ early' = IF e.ev = "arrive" /\ e.when = "before" THEN early \cup {e.d} ELSE early
             /\ late'  = IF e.ev = "arrive" /\ e.when = "after"  THEN late \cup {e.d} ELSE late
-  /\ l' = l + 1
+  /\ pos' = pos + 1
 
-Done == l = Len(Trace) + 1 /\ UNCHANGED <<l, viol, cnt, early, late>>
+Done == pos = Len(Trace) + 1 /\ UNCHANGED <<pos, viol, cnt, early, late>>
 Next == Step \/ Done
-Rep  == Report(l, viol, cnt)
+Rep  == Report(pos, viol, cnt)
 =============================================================================
